@@ -81,6 +81,7 @@ type scenario struct {
 	Member int // initial members of a composite
 	Combined bool
 	SameStream bool
+	Appenders  int // concurrent Append calls (default 1)
 	Bound  int
 }
 
@@ -278,12 +279,41 @@ func bodyMultiple(x *gosim.Exec, w *world, sc scenario) {
 		sent = append(sent, sentMsg{m: "O:" + m, lateMust: true})
 		ml.Log(m)
 	})
+	// a second, concurrent Append: both members must be there afterwards
+	late2 := &recLogger{x: x, name: "late2"}
+	late2Appended := false
+	if sc.Appenders > 1 {
+		x.Go("appender2", 0, func() {
+			if err := ml.Append(late2); err != nil {
+				x.Violate("append-failed:logger=multiple", "%v", err)
+				return
+			}
+			x.Gate(0, "Append(late2) returned")
+			late2Appended = true
+		})
+	}
 	x.AtEnd = func(x *gosim.Exec) {
+		if sc.Appenders > 1 && lateAppended && late2Appended {
+			// both Append calls returned nil: a message logged now must reach both new members
+			before1, before2 := len(late.msgs), len(late2.msgs)
+			ml.Log("msg-final")
+			if len(late.msgs) != before1+1 || len(late2.msgs) != before2+1 {
+				x.Violate("member-lost-by-concurrent-append:logger=multiple", "after two overlapping Append calls returned, a message reached late:%v late2:%v", len(late.msgs) == before1+1, len(late2.msgs) == before2+1)
+				return
+			}
+			late.msgs = late.msgs[:before1]
+		}
 		var all []string
 		for _, s := range sent {
 			all = append(all, s.m)
 		}
 		for _, mem := range members {
+			if sc.Appenders > 1 {
+				// the final probe message reached the initial members too
+				if n := len(mem.msgs); n > 0 && mem.msgs[n-1] == "O:msg-final" {
+					mem.msgs = mem.msgs[:n-1]
+				}
+			}
 			if !multisetEq(mem.msgs, all) {
 				x.Violate("member-missed-or-duplicated-message:logger=multiple", "member %s received %v, sent %v", mem.name, mem.msgs, all)
 				return
@@ -472,6 +502,8 @@ func scenarios() []scenario {
 	add(scenario{Name: "multiple/1 member/2 producers + appender", Family: "multiple", Member: 1, Prod: 3, Calls: 1, Bound: 2})
 	add(scenario{Name: "multiple/2 members/1 producer x 2 + appender", Family: "multiple", Member: 2, Prod: 2, Calls: 2, Bound: 2})
 	add(scenario{Name: "combined/2 members/2 producers + appender", Family: "multiple", Combined: true, Member: 2, Prod: 3, Calls: 1, Bound: 2})
+	add(scenario{Name: "multiple/1 member/1 producer + 2 concurrent appenders", Family: "multiple", Member: 1, Prod: 2, Calls: 1, Appenders: 2, Bound: 2})
+	add(scenario{Name: "combined/1 member/1 producer + 2 concurrent appenders", Family: "multiple", Combined: true, Member: 1, Prod: 2, Calls: 1, Appenders: 2, Bound: 2})
 	add(scenario{Name: "writers/2 producers x 1 + adder", Family: "writers", Prod: 3, Calls: 1, Bound: 3})
 	add(scenario{Name: "json/2 producers x 2", Family: "json", Prod: 2, Calls: 2, Bound: 3})
 	for _, ring := range []int{1, 2, 4} {
